@@ -24,6 +24,13 @@ func vC04Elem(allowVoid bool) JsonNode {
 	if allowVoid && n == 10 {
 		n = 11
 	}
+	if vParam("RICH", 0) == 2 {
+		// numbers and two-key objects only (which value belongs to which key)
+		if vChoice(2) == 0 {
+			return jsonNumber(vF64())
+		}
+		return jsonObject{"a": jsonNumber(vF64()), "b": jsonNumber(vF64())}
+	}
 	if vParam("RICH", 0) == 1 {
 		// richer element kinds (two-key objects, nesting) instead of the string / scalar kinds
 		switch vChoice(5) {
